@@ -682,3 +682,188 @@ theorem finalFallback_scope_ne_notAllowed {matchPat : Matcher Pat} {req : Req}
         simpa [finalFallback] using this
 
 end ActixModel.Route
+
+namespace ActixModel.Route
+
+/-! ## laws of a pattern matcher that C09 statements about segment boundaries rely on
+(C10 proves them of the real pattern language; `Proofs/RouteMini.lean` of the stand-in) -/
+
+/-- prefix patterns (scopes) end at the end of the path or before a `/` -/
+def PrefixBoundary {Pat : Type} (matchPat : Matcher Pat) : Prop :=
+  ∀ p s len caps, matchPat p true s = some (len, caps) →
+    s.drop len = [] ∨ (s.drop len).head? = some '/'
+
+/-- full patterns (resources) consume the whole remaining path -/
+def FullMatch {Pat : Type} (matchPat : Matcher Pat) : Prop :=
+  ∀ p s len caps, matchPat p false s = some (len, caps) → s.drop len = []
+
+
+end ActixModel.Route
+
+namespace ActixModel.Route
+
+variable {Pat : Type}
+
+theorem routeList_append {matchPat : Matcher Pat} {req : Req} (ns extra : List (Node Pat)) (st : St)
+    (d : Target) (i : Nat) :
+    routeList matchPat req (ns ++ extra) st d i =
+      match routeList matchPat req ns st d i with
+      | some o => some o
+      | none => routeList matchPat req extra st d (i + ns.length) := by
+  induction ns generalizing i with
+  | nil => simp [routeList]
+  | cons n ns ih =>
+    simp only [List.cons_append, List.length_cons]
+    rw [routeList, routeList]
+    cases accept matchPat req n st i with
+    | some st' => rfl
+    | none =>
+      simp only
+      rw [ih]
+      have : i + 1 + ns.length = i + (ns.length + 1) := by omega
+      rw [this]
+
+end ActixModel.Route
+
+/-! ## depth-first registration order -/
+
+namespace ActixModel.Route
+
+variable {Pat : Type}
+
+/-- a chain of services whose patterns match successively and whose guards accept — like `Walk`
+but *without* the requirement that each is the first such entry of its level -/
+inductive Chain (matchPat : Matcher Pat) (req : Req) : List (Node Pat) → St → List (Step Pat) → St → Prop
+  | nil {nodes st} : Chain matchPat req nodes st [] st
+  | cons {nodes st} (s : Step Pat) {rest st'} :
+      nodes[s.idx]? = some s.node →
+      Matches matchPat req s.node st s.len s.caps →
+      Chain matchPat req s.node.children (commit st s.len s.caps s.node.data s.idx) rest st' →
+      Chain matchPat req nodes st (s :: rest) st'
+
+/-- lexicographic `≤` on index paths = depth-first registration order -/
+def LexLe : List Nat → List Nat → Prop
+  | [], _ => True
+  | _ :: _, [] => False
+  | a :: as, b :: bs => a < b ∨ (a = b ∧ LexLe as bs)
+
+/-- position of the first accepting route -/
+def firstRouteIdx (req : Req) : List Route → Nat → Option Nat
+  | [], _ => none
+  | r :: rs, i => if evalAll req r.guards then some i else firstRouteIdx req rs (i + 1)
+
+theorem firstRouteIdx_le {req : Req} {routes : List Route} {i k j : Nat} {r : Route}
+    (h : firstRouteIdx req routes i = some k) (hj : routes[j]? = some r) (hr : GuardsOk req r.guards) :
+    k ≤ i + j := by
+  induction routes generalizing i j with
+  | nil => simp at hj
+  | cons q qs ih =>
+    unfold firstRouteIdx at h
+    split at h
+    · simp only [Option.some.injEq] at h; omega
+    · rename_i hq
+      cases j with
+      | zero =>
+        simp only [List.getElem?_cons_zero, Option.some.injEq] at hj
+        subst hj
+        exact absurd ((evalAll_iff req _).2 hr) hq
+      | succ j' =>
+        simp only [List.getElem?_cons_succ] at hj
+        have := ih h hj
+        omega
+
+theorem firstRouteIdx_isSome {req : Req} {routes : List Route} {i : Nat} :
+    (firstRouteIdx req routes i).isSome = (firstRoute req routes).isSome := by
+  induction routes generalizing i with
+  | nil => rfl
+  | cons q qs ih =>
+    unfold firstRouteIdx firstRoute
+    split <;> simp [ih]
+
+/-- **depth-first, registration order**: the walk the router takes is lexicographically minimal
+among all chains that end in a resource with an accepting route -/
+theorem walk_dfs_minimal {matchPat : Matcher Pat} {req : Req} {nodes : List (Node Pat)} {st st₁ st₂ : St}
+    {w c : List (Step Pat)}
+    (hw : Walk matchPat req nodes st w st₁) (hc : Chain matchPat req nodes st c st₂)
+    {s t : Step Pat} (hwl : w.getLast? = some s) (hcl : c.getLast? = some t)
+    {pat pat' : Pat} {gs gs' : List Guard} {data data' : Option Nat} {routes routes' : List Route}
+    {dflt dflt' : Option Nat}
+    (hs : s.node = .resource pat gs data routes dflt) (ht : t.node = .resource pat' gs' data' routes' dflt')
+    {k j : Nat} {r : Route} (hk : firstRouteIdx req routes 0 = some k)
+    (hj : routes'[j]? = some r) (hr : GuardsOk req r.guards) :
+    LexLe (w.map (·.idx) ++ [k]) (c.map (·.idx) ++ [j]) := by
+  induction hw generalizing c st₂ with
+  | nil => simp at hwl
+  | @cons nodes st a rest st' hget hrej hm hw ih =>
+    cases hc with
+    | nil => simp at hcl
+    | @cons _ _ b crest _ hgetb hmb hcrest =>
+      simp only [List.map_cons, List.cons_append, LexLe]
+      rcases Nat.lt_trichotomy a.idx b.idx with hlt | heq | hgt
+      · exact Or.inl hlt
+      · right
+        refine ⟨heq, ?_⟩
+        have hnode : a.node = b.node := by
+          rw [heq] at hget; rw [hget] at hgetb; exact Option.some.inj hgetb
+        rw [← hnode] at hmb
+        obtain ⟨hl, hcs⟩ := hm.unique hmb
+        have hab : a = b := by cases a; cases b; simp_all
+        subst hab
+        cases rest with
+        | nil =>
+          -- `a` is the walk's last step: a resource, so the chain ends here too
+          simp only [List.getLast?_singleton, Option.some.injEq] at hwl
+          subst hwl
+          rw [hs] at hcrest
+          have hcr : crest = [] := by
+            cases hcrest with
+            | nil => rfl
+            | cons u hgetu _ _ => simp [Node.children] at hgetu
+          subst hcr
+          simp only [List.getLast?_singleton, Option.some.injEq] at hcl
+          subst hcl
+          rw [hs] at ht
+          simp only [Node.resource.injEq] at ht
+          obtain ⟨_, _, _, rfl, _⟩ := ht
+          have := firstRouteIdx_le hk hj hr
+          simp only [List.map_nil, List.nil_append, LexLe]
+          rcases Nat.lt_or_ge k j with h | h
+          · exact Or.inl h
+          · exact Or.inr ⟨by omega, trivial⟩
+        | cons a' rest' =>
+          rw [List.getLast?_cons_cons] at hwl
+          cases crest with
+          | nil =>
+            -- the chain ends in `a`, a resource; but the walk continues below `a`: impossible
+            simp only [List.getLast?_singleton, Option.some.injEq] at hcl
+            subst hcl
+            rw [ht] at hw
+            cases hw with
+            | cons u hgetu _ _ _ => simp [Node.children] at hgetu
+          | cons b' crest' =>
+            rw [List.getLast?_cons_cons] at hcl
+            exact ih hcrest hwl hcl
+      · exact absurd hmb (hrej b.idx b.node hgt hgetb b.len b.caps)
+
+/-- the position found by `firstRouteIdx` holds the route `firstRoute` dispatches to -/
+theorem firstRouteIdx_spec {req : Req} {routes : List Route} {i k : Nat}
+    (h : firstRouteIdx req routes i = some k) :
+    ∃ r, routes[k - i]? = some r ∧ i ≤ k ∧ GuardsOk req r.guards ∧ firstRoute req routes = some r.handler := by
+  induction routes generalizing i with
+  | nil => simp [firstRouteIdx] at h
+  | cons q qs ih =>
+    unfold firstRouteIdx at h
+    unfold firstRoute
+    split at h
+    · rename_i hq
+      simp only [Option.some.injEq] at h
+      subst h
+      exact ⟨q, by simp, Nat.le_refl _, (evalAll_iff req _).1 hq, by simp [hq]⟩
+    · rename_i hq
+      obtain ⟨r, hr, hle, hg, hf⟩ := ih h
+      refine ⟨r, ?_, by omega, hg, by simp [hq, hf]⟩
+      have : k - i = (k - (i + 1)) + 1 := by omega
+      rw [this, List.getElem?_cons_succ]
+      exact hr
+
+end ActixModel.Route
